@@ -54,59 +54,99 @@ fn butterfly<T: FftNum>(len: u64, d: FftDirection) -> Option<Arc<dyn Fft<T>>> {
 }
 
 fn guarded<T: FftNum>(what: &str, f: impl FnOnce() -> Arc<dyn Fft<T>>) -> Result<Arc<dyn Fft<T>>, BuildErr> {
-    catch_unwind(AssertUnwindSafe(f)).map_err(|e| BuildErr::Panic(format!("{}: {}", what, crate::planners::panic_msg(e))))
+    crate::calls::lib_catch((f)).map_err(|e| BuildErr::Panic(format!("{}: {}", what, crate::planners::panic_msg(e))))
 }
 
 fn small_ok<T: FftNum>(f: &Arc<dyn Fft<T>>) -> bool {
     f.get_outofplace_scratch_len() == 0 && f.get_inplace_scratch_len() <= f.len()
 }
 
+/// annotation of a built node for the faithful scratch model (spec/Scratch.tla): kind, length, advertised scratch, children
+fn annotate<T: FftNum>(kind: &str, fft: &Arc<dyn Fft<T>>, ch: Vec<Value>) -> Value {
+    json!({"k": kind, "len": fft.len(),
+           "scr": [fft.get_inplace_scratch_len(), fft.get_outofplace_scratch_len(), fft.get_immutable_scratch_len()],
+           "ch": ch})
+}
+
 pub fn build_tree<T: Elem>(t: &Value, d: FftDirection) -> Result<Arc<dyn Fft<T>>, BuildErr> {
+    build_annotated::<T>(t, d).map(|(f, _)| f)
+}
+
+pub fn build_annotated<T: Elem>(t: &Value, d: FftDirection) -> Result<(Arc<dyn Fft<T>>, Value), BuildErr> {
     let k = t["k"].as_str().unwrap_or("");
     let len = t["len"].as_u64().unwrap_or(0);
     let kk = t["kk"].as_u64().unwrap_or(0) as u32;
     let ch: Vec<&Value> = t["ch"].as_array().map(|a| a.iter().collect()).unwrap_or_default();
     match k {
-        "Dft" => guarded("Dft::new", || Arc::new(Dft::new(len as usize, d))),
-        "Butterfly" => butterfly::<T>(len, d).ok_or(BuildErr::Skip(format!("no Butterfly{}", len))),
-        "Radix4" => guarded("Radix4::new", || Arc::new(Radix4::new(len as usize, d))),
-        "Radix3" => guarded("Radix3::new", || Arc::new(Radix3::new(len as usize, d))),
+        "Dft" => guarded("Dft::new", || Arc::new(Dft::new(len as usize, d))).map(|f| {
+            let a = annotate("Dft", &f, vec![]);
+            (f, a)
+        }),
+        "Butterfly" => butterfly::<T>(len, d).ok_or(BuildErr::Skip(format!("no Butterfly{}", len))).map(|f| {
+            let a = annotate("Butterfly", &f, vec![]);
+            (f, a)
+        }),
+        // Radix4::new / Radix3::new pick their own base butterfly: opaque to the scratch model
+        "Radix4" => guarded("Radix4::new", || Arc::new(Radix4::new(len as usize, d))).map(|f| {
+            let a = annotate("Opaque", &f, vec![]);
+            (f, a)
+        }),
+        "Radix3" => guarded("Radix3::new", || Arc::new(Radix3::new(len as usize, d))).map(|f| {
+            let a = annotate("Opaque", &f, vec![]);
+            (f, a)
+        }),
         "Planned" => {
             let kind = Kind::parse(t["pl"].as_str().unwrap_or("")).ok_or(BuildErr::Skip("unknown planner".into()))?;
             match AnyPlanner::<T>::new(kind) {
-                NewResult::Ok(mut p) => p.plan(len as usize, d).map_err(|m| BuildErr::Panic(format!("plan_fft({}): {}", len, m))),
+                NewResult::Ok(mut p) => p
+                    .plan(len as usize, d)
+                    .map_err(|m| BuildErr::Panic(format!("plan_fft({}): {}", len, m)))
+                    .map(|f| {
+                        let a = annotate("Opaque", &f, vec![]);
+                        (f, a)
+                    }),
                 NewResult::Err => Err(BuildErr::Skip(format!("planner {} unavailable for {}", kind.name(), T::ELEM))),
                 NewResult::Panic(m) => Err(BuildErr::Panic(m)),
             }
         }
         "MixedRadix" | "MixedRadixSmall" | "GoodThomasAlgorithm" | "GoodThomasAlgorithmSmall" => {
-            let a = build_tree::<T>(ch[0], d)?;
-            let b = build_tree::<T>(ch[1], d)?;
+            let (a, aa) = build_annotated::<T>(ch[0], d)?;
+            let (b, ba) = build_annotated::<T>(ch[1], d)?;
             if k.ends_with("Small") && !(small_ok(&a) && small_ok(&b)) {
                 return Err(BuildErr::Skip("inner scratch needs exceed what the *Small algorithms accept".into()));
             }
-            match k {
+            let f = match k {
                 "MixedRadix" => guarded(k, || Arc::new(MixedRadix::new(a, b))),
                 "MixedRadixSmall" => guarded(k, || Arc::new(MixedRadixSmall::new(a, b))),
                 "GoodThomasAlgorithm" => guarded(k, || Arc::new(GoodThomasAlgorithm::new(a, b))),
                 _ => guarded(k, || Arc::new(GoodThomasAlgorithmSmall::new(a, b))),
-            }
+            }?;
+            let an = annotate(k, &f, vec![aa, ba]);
+            Ok((f, an))
         }
         "RadersAlgorithm" => {
-            let a = build_tree::<T>(ch[0], d)?;
-            guarded(k, || Arc::new(RadersAlgorithm::new(a)))
+            let (a, aa) = build_annotated::<T>(ch[0], d)?;
+            let f = guarded(k, || Arc::new(RadersAlgorithm::new(a)))?;
+            let an = annotate(k, &f, vec![aa]);
+            Ok((f, an))
         }
         "BluesteinsAlgorithm" => {
-            let a = build_tree::<T>(ch[0], d)?;
-            guarded(k, || Arc::new(BluesteinsAlgorithm::new(len as usize, a)))
+            let (a, aa) = build_annotated::<T>(ch[0], d)?;
+            let f = guarded(k, || Arc::new(BluesteinsAlgorithm::new(len as usize, a)))?;
+            let an = annotate(k, &f, vec![aa]);
+            Ok((f, an))
         }
         "Radix4Base" => {
-            let a = build_tree::<T>(ch[0], d)?;
-            guarded(k, || Arc::new(Radix4::new_with_base(kk, a)))
+            let (a, aa) = build_annotated::<T>(ch[0], d)?;
+            let f = guarded(k, || Arc::new(Radix4::new_with_base(kk, a)))?;
+            let an = annotate("Radix4", &f, vec![aa]);
+            Ok((f, an))
         }
         "Radix3Base" => {
-            let a = build_tree::<T>(ch[0], d)?;
-            guarded(k, || Arc::new(Radix3::new_with_base(kk, a)))
+            let (a, aa) = build_annotated::<T>(ch[0], d)?;
+            let f = guarded(k, || Arc::new(Radix3::new_with_base(kk, a)))?;
+            let an = annotate("Radix3", &f, vec![aa]);
+            Ok((f, an))
         }
         other => Err(BuildErr::Skip(format!("unknown node kind {}", other))),
     }
@@ -198,7 +238,7 @@ fn real_checks<T: Real + Elem>(ctx: &mut Ctx, pl: &Planned<T>, salt: usize) {
             let mut b = c.to_vec();
             let mut s = vec![z; pl.adv[0]];
             let f = pl.fft.clone();
-            let _ = catch_unwind(AssertUnwindSafe(|| f.process_with_scratch(&mut b, &mut s)));
+            let _ = crate::calls::lib_catch((|| f.process_with_scratch(&mut b, &mut s)));
             b
         })
         .collect();
@@ -254,7 +294,7 @@ fn real_checks<T: Real + Elem>(ctx: &mut Ctx, pl: &Planned<T>, salt: usize) {
                     }
                     let mut b = c.to_vec();
                     let mut s = vec![Complex::<T>::zero(); adv0];
-                    let ok = catch_unwind(AssertUnwindSafe(|| fft.process_with_scratch(&mut b, &mut s))).is_ok();
+                    let ok = crate::calls::lib_catch((|| fft.process_with_scratch(&mut b, &mut s))).is_ok();
                     by_chunk.push(ok && err_q(res, &to_cdd(&b)) < (1 << 22));
                 }
                 if r.result.len() != xin.len() {
@@ -269,15 +309,16 @@ fn real_checks<T: Real + Elem>(ctx: &mut Ctx, pl: &Planned<T>, salt: usize) {
 fn real_tree<T: Real + Elem>(ctx: &mut Ctx, t: &Value, desc: &str, salt: usize) {
     let n = tree_len(t) as usize;
     for d in DIRS {
-        let built = match build_tree::<T>(t, d) {
-            Ok(f) => Ok(f),
+        let (built, ann) = match build_annotated::<T>(t, d) {
+            Ok((f, a)) => (Ok(f), a),
             Err(BuildErr::Skip(why)) => {
                 ctx.tr.emit("Note", json!({"what": "ctor-skip", "elem": T::ELEM, "why": why}));
                 return;
             }
-            Err(BuildErr::Panic(m)) => Err(m),
+            Err(BuildErr::Panic(m)) => (Err(m), json!([])),
         };
         ctx.case(format!("{} {} {}", T::ELEM, desc, dir_name(d)), true);
+        ctx.construct_tree = Some(ann);
         if let Some(pl) = ctx.construct::<T>(n, d, desc, built) {
             real_checks(ctx, &pl, salt + if d == DIRS[0] { 0 } else { 1 });
         }
